@@ -89,6 +89,7 @@ type printer struct {
 
 	lv    int
 	stack [][]*ast.Redir
+	base  int // here-documents below this level belong to an enclosing command substitution
 }
 
 func (p *printer) indent() {
@@ -105,6 +106,15 @@ func (p *printer) space() {
 
 func (p *printer) newline() {
 	p.w.WriteByte('\n')
+	// here-documents of the line which ends here
+	for i := p.base; i < len(p.stack); i++ {
+		for _, r := range p.stack[i] {
+			p.word(r.Heredoc)
+			p.word(r.Delim)
+			p.w.WriteByte('\n')
+		}
+		p.stack[i] = nil
+	}
 }
 
 func (p *printer) print(n ast.Node) (err error) {
@@ -653,9 +663,12 @@ func (p *printer) cmdSubst(w *ast.CmdSubst) {
 		p.w.WriteByte('`')
 	}
 	if len(w.List) > 1 || w.Left.Line() != w.Right.Line() {
+		base := p.base
+		p.base = len(p.stack)
 		p.compoundList(w.List)
 		p.newline()
 		p.indent()
+		p.base = base
 	} else {
 		if w.Dollar && p.leadingSubshell(w.List[0]) {
 			// avoid "$(("
